@@ -42,6 +42,9 @@ mut("c18-interrupt-no-restart", "C18", "sandbox/src/parent.rs",
     "                    Ok(Err(Error::Interrupted)) => {\n                        break_out = true;\n",
     "                    Ok(Err(Error::Interrupted)) => {\n",
     "no restart after ctrl-c: the interrupted request's reply is delivered to the next request (needs the ctrl-c extra fault)")
+mut("c18-resumable-frame-read", "C18", "sandbox/src/frame.rs",
+    None, None,
+    "read_async remembers a header whose body it has not finished reading and resumes there next time: after a time-out in the middle of a reply frame the next child's reply is misread (needs the slow-pipe extra fault)")
 mut("c18-child-exit-before-reply", "C18", "sandbox/src/child.rs",
     "        let should_exit = result.is_err();\n",
     "        let should_exit = result.is_err();\n        if should_exit && memory_used > 1_000_000_000 {\n            exit(1);\n        }\n",
@@ -169,6 +172,48 @@ def _(src):
     # both writers truncate the length to 16 bits "to save bytes on small frames"
     s = src("sandbox/src/frame.rs")
     s = s.replace("let len = u32::to_ne_bytes(bytes.len() as u32);", "let len = u32::to_ne_bytes(bytes.len() as u16 as u32);")
+    return {"sandbox/src/frame.rs": s}
+
+@special("c18-resumable-frame-read")
+def _(src):
+    s = src("sandbox/src/frame.rs")
+    s = s.replace("pub(crate) struct Frame {\n    buf: Vec<u8>,\n}", "pub(crate) struct Frame {\n    buf: Vec<u8>,\n    pending: Option<u32>,\n}")
+    s = s.replace("        Frame { buf: vec![] }", "        Frame {\n            buf: vec![],\n            pending: None,\n        }")
+    old = """        let mut len = [0, 0, 0, 0];
+        reader
+            .read_exact(&mut len)
+            .await
+            .map_err(Error::ReadFailed)?;
+        let len = u32::from_ne_bytes(len);
+
+        self.buf.resize(len as usize, 0);
+        reader
+            .read_exact(&mut self.buf)
+            .await
+            .map_err(Error::ReadFailed)?;
+"""
+    new = """        let len = match self.pending {
+            Some(len) => len,
+            None => {
+                let mut len = [0, 0, 0, 0];
+                reader
+                    .read_exact(&mut len)
+                    .await
+                    .map_err(Error::ReadFailed)?;
+                u32::from_ne_bytes(len)
+            }
+        };
+        self.pending = Some(len);
+
+        self.buf.resize(len as usize, 0);
+        reader
+            .read_exact(&mut self.buf)
+            .await
+            .map_err(Error::ReadFailed)?;
+        self.pending = None;
+"""
+    assert old in s
+    s = s.replace(old, new)
     return {"sandbox/src/frame.rs": s}
 
 @special("c19-child-peak-read-early")
